@@ -191,6 +191,30 @@ class Alphabet:
                         continue  # mark;mark == mark
                     yield (s,) + rest
 
+    def contains(self, prog: tuple) -> bool:
+        """Is prog a program of this alphabet (constants only; the structure rules are the same for every alphabet)."""
+        for s in prog:
+            op = s[0]
+            if op == "sleep":
+                ok = s[1] in self.sleeps
+            elif op in ("yield", "syield"):
+                ok = op in self.yields
+            elif op == "mark":
+                ok = self.mark
+            elif op == "cancel":
+                ok = s[1] in self.ks
+            elif op == "resched":
+                ok = s[1] in self.ks and s[2] in self.resched
+            elif op in SCOPES:
+                ok = s[1] in getattr(self, op) and self.contains(s[2])
+            elif op == "shield":
+                ok = self.contains(s[1])
+            else:
+                ok = self.contains(s[1]) and self.contains(s[2])
+            if not ok:
+                return False
+        return True
+
     def programs(self, max_nodes: int) -> Iterator[tuple]:
         """All programs with 1..max_nodes nodes whose first statement is a container."""
         for n in range(1, max_nodes + 1):
@@ -222,9 +246,10 @@ class Alphabet:
 #    (external from the child's point of view), the group waits for the children (not interruptible any more) and the
 #    cancellation then continues in the parent.  A child cancelled before its first step never runs.
 #  * Scheduling inside one instant goes in rounds (one step per runnable task, FIFO); the wake-up of a task whose wait is
-#    interrupted by a cancellation arrives `lat` rounds late.  The statement does not fix this latency: a (program,
-#    injection) whose reference trace depends on lat is a same-instant race between tasks and is judged by the
-#    order-independent clauses only.
+#    interrupted by a cancellation arrives `lat` rounds late, before (`front`) or after the tasks that were already
+#    runnable.  The statement does not fix this latency: a (program, injection) whose reference trace depends on
+#    (lat, front, donelat = rounds until a group notices that a child has finished) is a same-instant race between tasks
+#    and is judged by the order-independent clauses only.
 
 
 class _Cancelled(Exception):
@@ -247,11 +272,14 @@ class _RTask:
         self.label, self.ext, self.frames, self.events = label, 0, [], []
         self.state, self.wake, self.gen, self.throw, self.intr, self.group, self.outcome = "new", INF, None, False, False, None, None
         self.sched = False  # an interrupting wake-up is on its way
+        self.visible = False  # finished and the parent's group knows
 
 
 class Ref:
-    def __init__(self, prog: tuple, inject_at: float | None = None, lat: int = 0, bits: tuple = ()) -> None:
-        self.prog, self.inject_at, self.now, self.lat, self.bits, self.npicks = prog, inject_at, 0.0, lat, bits, 0
+    def __init__(self, prog: tuple, inject_at: float | None = None, lat: int = 0, bits: tuple = (), front: bool = False, donelat: int = 0) -> None:
+        self.prog, self.inject_at, self.now, self.lat, self.bits, self.npicks, self.front = prog, inject_at, 0.0, lat, bits, 0, front
+        self.donelat = donelat
+        self.notify: list[tuple[int, _RTask]] = []  # (round, finished child): when its parent gets to know
         self.tasks: list[_RTask] = []
         self.ready: list[_RTask] = []  # runnable in the next round
         self.delayed: list[tuple[int, _RTask]] = []  # (round, task): interrupting wake-ups under way
@@ -396,7 +424,7 @@ class Ref:
                     if child.state != "done":
                         child.ext += 1
                         self.cause(child, T.label)
-                if child.state == "done":
+                if child.visible:
                     break
                 try:
                     T.group = child
@@ -420,10 +448,10 @@ class Ref:
             req = T.gen.throw(_Cancelled()) if throw else next(T.gen)
         except StopIteration:
             T.state = "done"
-            for P in self.tasks:
-                if P.state == "join" and P.group is T:
-                    P.state = "woken"
-                    self.ready.append(P)
+            if self.donelat == 0:
+                self.seen_done(T)
+            else:
+                self.notify.append((self.round + self.donelat, T))
             return
         if req[0] == "sleep":
             T.state, T.wake, T.intr = "sleep", req[1], True
@@ -432,6 +460,13 @@ class Ref:
             self.ready.append(T)
         else:
             T.state, T.intr = "join", req[1]
+
+    def seen_done(self, T: _RTask) -> None:
+        T.visible = True
+        for P in self.tasks:
+            if P.state == "join" and P.group is T:
+                P.state = "woken"
+                self.ready.append(P)
 
     def rescan(self) -> None:
         for T in self.tasks:
@@ -442,13 +477,19 @@ class Ref:
     def drain(self) -> None:
         """Run everything that can run at the current instant, in rounds."""
         self.rescan()
-        while self.ready or self.delayed:
+        while self.ready or self.delayed or self.notify:
             self.round += 1
+            for r, T in self.notify:
+                if r <= self.round:
+                    self.seen_done(T)
+            self.notify = [(r, T) for r, T in self.notify if r > self.round]
             cur, self.ready = self.ready, []
+            due = []
             for r, T in self.delayed:
                 if r <= self.round and T.state in ("sleep", "join"):  # (not resumed by something else meanwhile)
                     T.throw = True
-                    cur.append(T)
+                    due.append(T)
+            cur = due + [T for T in cur if T not in due] if self.front else cur + [T for T in due if T not in cur]
             self.delayed = [(r, T) for r, T in self.delayed if r > self.round]
             for T in cur:
                 if T.state != "done":
@@ -549,8 +590,9 @@ class RefSet:
         self.race = self.main.cause_race()
         if not self.race and len(self.main.tasks) > 1:
             t0 = self.main.traces()
-            for lat in (1, 2, 3):
-                if diff_traces(t0, Ref(prog, inject_at, lat).run().traces(), observed=False) is not None:
+            for lat, front, dl in ((0, True, 0), (1, False, 0), (1, True, 0), (2, False, 0), (2, True, 0), (3, False, 0),
+                                   (0, False, 1), (0, False, 2), (1, False, 1), (1, True, 1), (2, True, 2), (0, True, 2)):
+                if diff_traces(t0, Ref(prog, inject_at, lat, (), front, dl).run().traces(), observed=False) is not None:
                     self.race = True
                     break
 
@@ -560,15 +602,12 @@ class RefSet:
         for i in range(fixed, r.npicks):
             todo.append(used[:i] + (1,))
 
-    def match(self, obs: dict[str, list[tuple]]) -> tuple[str, str] | None:
-        """None if the observation equals one allowed trace, else the difference with the default one."""
-        first = None
+    def match(self, obs: dict[str, list[tuple]]) -> list | None:
+        """None if the observation equals one allowed trace, else the differences (one per task) with the default one."""
         for r in self.variants:
-            d = diff_traces(r.traces(), obs)
-            if d is None:
+            if diff_traces(r.traces(), obs) is None:
                 return None
-            first = first or d
-        return first
+        return diff_traces(self.main.traces(), obs, every=True)
 
 
 # --------------------------------------------------------------------------------------------------------------------
@@ -627,6 +666,7 @@ class _TaskRec:
         self.in_ckpt: tuple | None = None  # (path, unshielded) while a checkpoint is in progress
         self.outcome: str | None = None
         self.leaked = 0  # cancel requests already reported as left over by a scope exit of this task
+        self.abort_info: dict | None = None  # child task: its situation when its TaskGroup cancelled it
 
 
 class Real:
@@ -641,7 +681,7 @@ class Real:
         self.inj: dict | None = None
         self.root: _TaskRec | None = None
         self.prog_task: asyncio.Task | None = None
-        self.sel_end = 0
+        self.sel_end = 0  # select() count when the program's task had finished
         self.status = ""
         self.value: Any = None
         self.end_checks: dict = {}
@@ -839,6 +879,8 @@ class Real:
         finally:
             c, x = T.task.cancelling(), self.ext_seen(T)
             self.ev(T, "end", T.outcome)
+            if T.atg is None:
+                self.sel_end = self.world.selects
             if c != x + T.leaked:
                 self.problems.append(("task-end-leftover-cancelling", f"task {T.label} ended {T.outcome} with cancelling()=={c}, external cancel requests: {x}"))
 
@@ -854,7 +896,6 @@ class Real:
         self.backend = AsyncIOBackend()
         self.prog_task = t = loop.create_task(self.root_main())
         await asyncio.wait([t])
-        self.sel_end = self.world.selects
         if not t.cancelled() and t.exception() is not None:
             pass  # retrieved
         for _ in range(3):  # let done callbacks and the delayed-cancel clean-up callbacks run
@@ -875,9 +916,33 @@ class Real:
         if loop.unhandled:
             self.problems.append(("loop-callback-error", f"event loop reported: {self.end_checks['loop_errors'][:2]}"))
 
+    def on_abort(self, atg: Any) -> None:
+        """Observation hook (harness-process patch of asyncio.TaskGroup._abort, which stays in charge): where each child
+        of the group is at the moment the group cancels it."""
+        for T in self.tasks:
+            if T.atg is atg and T.abort_info is None and not T.task.done():
+                T.abort_info = {"started": True, "shielded": bool(T.sdepth), "cancelling_before": T.task.cancelling(),
+                                "scopes_cancel_called": [r.path for r in T.scopes if r.scope.cancel_called()]}
+
     def run(self) -> "Real":
+        import asyncio.taskgroups as _tgmod
+
         from . import vloop
 
+        orig_abort = _tgmod.TaskGroup._abort
+        me = self
+
+        def _abort(tg: Any) -> None:
+            me.on_abort(tg)
+            orig_abort(tg)
+
+        _tgmod.TaskGroup._abort = _abort
+        try:
+            return self._run(vloop)
+        finally:
+            _tgmod.TaskGroup._abort = orig_abort
+
+    def _run(self, vloop: Any) -> "Real":
         w = self.world
         if self.inject is not None:
             kind, x = self.inject
@@ -920,8 +985,10 @@ def comparable(events: list[tuple], observed: bool) -> list[tuple]:
     return out
 
 
-def diff_traces(ref: dict[str, list[tuple]], obs: dict[str, list[tuple]], observed: bool = True) -> tuple[str, str] | None:
-    """None if equal (times within TOL), else (symptom class, text)."""
+def diff_traces(ref: dict[str, list[tuple]], obs: dict[str, list[tuple]], observed: bool = True, every: bool = False) -> Any:
+    """None if equal (times within TOL), else (symptom class, text, task label, expected task outcome, observed task outcome)
+    of the first task that differs (every=True: the list of these for all tasks that differ)."""
+    out = []
     for label in sorted(set(ref) | set(obs)):
         r = comparable(ref.get(label, []), False)
         o = comparable(obs.get(label, []), observed)
@@ -947,8 +1014,14 @@ def diff_traces(ref: dict[str, list[tuple]], obs: dict[str, list[tuple]], observ
                 sym = "task-outcome-differs"
             else:
                 sym = "trace-differs"
-            return sym, f"task {label} event #{i}: expected {_fmt_ev(a)} observed {_fmt_ev(c)}"
-    return None
+            end_r = next((e[1] for e in r if e[0] == "end"), None)
+            end_o = next((e[1] for e in o if e[0] == "end"), None)
+            d = (sym, f"task {label} event #{i}: expected {_fmt_ev(a)} observed {_fmt_ev(c)}", label, end_r, end_o)
+            if not every:
+                return d
+            out.append(d)
+            break
+    return out or None
 
 
 def _fmt_ev(e: tuple | None) -> str:
